@@ -6,6 +6,15 @@ use crate::io;
 use crate::util::{compare_lowercase_ascii, log_data, Writer};
 ''')
 
+# The spec-level arithmetic of C18/C19 (spec_max_input, cc, the lemmas about them) is written and proved for the tuning
+# constants the source has today.  If they are changed the properties may well still hold, but these lemmas no longer
+# speak about the code: that is "cannot decide here" (inconclusive, the bounded twins still run), never an alarm.
+import re as _re
+_src = open(REPO + '/src/body.rs', encoding='utf-8').read()
+for _name, _val in (('DEFAULT_CHUNK_SIZE', '10 * 1024'), ('DEFAULT_CHUNK_OVERHEAD', '4 + 4'), ('DEFAULT_CHUNK_AND_OVERHEAD', 'DEFAULT_CHUNK_SIZE + DEFAULT_CHUNK_OVERHEAD')):
+    if not _re.search(r'const\s+%s\s*:\s*usize\s*=\s*%s\s*;' % (_name, _re.escape(_val).replace('\\ ', '\\s*')), _src):
+        raise LostAnchor('body: tuning constant %s is no longer `%s`; the spec-level chunk arithmetic (10240 / 8 / 10248) is proved for that value only' % (_name, _val))
+
 # =============================================================================
 # spec vocabulary for the request-body writer (C03, C04, C18, C19)
 # =============================================================================
